@@ -268,9 +268,9 @@ def options_on_case(ck, rng, c, x, A3, t, shape, fwhm, base):
         f2, _ = mk(aff4(A3, t), shape, fwhm, scale=sc, location=lo)
         judge(smooth(f2, c.cm, x).get_fdata(), "LinearFilter(scale, location).smooth")
         # the same filter used again on another image, then with its public attributes changed back
-        y = np.roll(x, 1, axis=0) + 1.0
+        y = -2.0 * x
         got = smooth(f2, c.cm, y).get_fdata()
-        wy = sc * (window(conv_full(y, c.K) / c.S, c.ck, c.shape)) + lo
+        wy = sc * (-2.0 * out0) + lo
         if got.shape != wy.shape or not np.allclose(got, wy, rtol=0, atol=1e-9 * max(1.0, float(np.abs(wy).max()))):
             ck.fail("scale-location/not-applied/%s" % kc, "second image through the same scaled filter is wrong (%s)" % kc, dict(rep, how="second image"))
     except Exception as e:  # noqa
@@ -375,7 +375,7 @@ def geometry_and_values(ck):
                 # --- values: random integer image, vs direct convolution (model index formula)
                 x = rng.integers(-8, 9, shape).astype(float)
                 r = check_values(ck, c, x, "random image")
-                if ck.thorough() or ncase % 3 == 0 or all(k == 1 for k in c.k):     # quick: a third of the cases + every one-voxel kernel
+                if ncase % (2 if ck.thorough() else 3) == 0 or all(k == 1 for k in c.k):     # a half (quick: a third) of the cases + every one-voxel kernel
                     options_on_case(ck, rng, c, x, A3, t, shape, fwhm, r)
                 if r is not None:
                     out, full = r
@@ -396,7 +396,11 @@ def geometry_and_values(ck):
                     continue
                 for tm, mexpr in model_terms(c, ck.thorough()):
                     terms.append(tm)
-                    meta.append((c, mexpr))
+                    lite = Case()        # keep no filter / buffers alive: smooth() calls gc.collect() three times per call
+                    lite.A3, lite.t, lite.shape, lite.fwhm, lite.impl = c.A3, c.t, c.shape, c.fwhm, c.impl
+                    meta.append((lite, mexpr))
+                if ncase % 100 == 0:
+                    gc.freeze()          # move what has accumulated (terms, counters) out of the collector's way
     res = None
     if ck.build is not None:
         import time
